@@ -15,7 +15,7 @@ from ..core import CaseResult, bind_repo
 PROP = "C15"
 LEVEL = "model_checking"
 SECOND_SCHEDULE = 0  # stride of the reverse-order history pass (0 = off, 1 = every case)
-RULE = ("237 settings x every position of the rational grid {0,1/8,1/6,1/4,1/3,3/8,1/2,5/8,2/3,3/4,5/6,7/8}^3 (1728; the quick tier uses the 8-value sub-grid {0,1/8,1/6,1/4,1/3,1/2,2/3,3/4}^3) plus the "
+RULE = ("237 settings x every position of the rational grid {0,1/8,1/6,1/4,1/3,3/8,1/2,5/8,2/3,3/4,5/6,7/8}^3 (1728; the quick tier uses the 7-value sub-grid {0,1/8,1/6,1/4,1/3,1/2,2/3}^3) plus the "
         "(x,x,z), (x,2x,z), (x,-x,z) families with generic x, passed as floats; lattice-shifted copies; lookups by number and by "
         "every dictionary name. Oracle: exact orbit size with Fractions. distinct_nontrivial = distinct (setting, orbit size) "
         "pairs met with orbit size < nsymop (special positions) plus distinct settings met on a general position.")
@@ -23,7 +23,7 @@ ASSUMPTIONS = ["translations are multiples of 1/24 (verified by C04)", "a positi
 
 GRID = [F(0), F(1, 8), F(1, 6), F(1, 4), F(1, 3), F(3, 8), F(1, 2), F(5, 8), F(2, 3), F(3, 4), F(5, 6), F(7, 8)]
 SUB = [F(0), F(1, 4), F(1, 3), F(1, 2)]
-QGRID = [F(0), F(1, 8), F(1, 6), F(1, 4), F(1, 3), F(1, 2), F(2, 3), F(3, 4)]
+QGRID = [F(0), F(1, 8), F(1, 6), F(1, 4), F(1, 3), F(1, 2), F(2, 3)]
 XGEN = [F(1234, 10000), F(2718, 10000)]
 
 
